@@ -60,6 +60,11 @@ def fixed_histories():
     H.append(([(0, 1, 0, 0, 4096), (1, 0, 1, 3, 0), (6, 1, 0, 0, 0), (4, 1, 0, 0, 0)],
               [(1, 0, 9, 0), (1, 1, 100, 1), (1, 0, 0, 1), (1, 1, 19, 0), (1, 0, 10, 2), (1, 1, 10, 7), (1, 0, 10, 0), (1, 0, 10, 3), (5, 10, 5),
                (4, 0), (4, 6), (4, 6), (4, 99), (5, 10, 2), (6,)]))
+    # several registrations share ONE open file description (dups of one blocking pipe, the documented way to use a
+    # pipe for several signals): removing the older / the younger one must leave the description non-blocking for
+    # the other; the pipe is full, so a delivery that found it blocking would never return
+    H.append(([(0, 1, 2, 0, 4096)], [(1, 0, 10, 0), (1, 0, 12, 0), (4, 0), (5, 12, 5), (5, 10, 2), (3, 0, 0), (5, 12, 3), (4, 1), (6,)]))
+    H.append(([(0, 1, 2, 0, 4096)], [(1, 1, 10, 0), (1, 0, 12, 0), (1, 1, 34, 0), (4, 2), (5, 10, 4), (4, 1), (5, 10, 4), (3, 0, 0), (5, 10, 3), (6,)]))
     # other kinds: /dev/null, eventfd (write of one byte is EINVAL), regular file
     H.append(([(3, 1, 0, 0, 0), (4, 1, 0, 0, 0), (5, 1, 0, 0, 0)], [(1, 0, 10, 0), (1, 1, 10, 1), (1, 0, 12, 2), (5, 10, 20), (5, 12, 7), (4, 2), (5, 12, 3), (6,)]))
     return H
